@@ -14,6 +14,8 @@ use std::collections::BTreeMap;
 pub enum COp {
   Set(ClaimSpec),
   Remove(String),
+  /// `extend_claims` with raw (key, value) entries
+  Extend(Vec<(String, Value)>),
   Build,
 }
 
@@ -57,7 +59,7 @@ impl Sub for ClaimsRoundTrip {
     }
     let mut model: BTreeMap<String, Value> = BTreeMap::new();
     let (mut overwrites, mut removals, mut nested, mut non_ascii, mut native, mut builds) = (0, 0, 0, 0, 0, 0);
-    let hist = |upto: usize| -> String { ops[..=upto].iter().map(|o| match o { COp::Set(s) => format!("set({:?}={})", s.key(), s.expected()), COp::Remove(k) => format!("remove({:?})", k), COp::Build => "build".into() }).collect::<Vec<_>>().join("; ") };
+    let hist = |upto: usize| -> String { ops[..=upto].iter().map(|o| match o { COp::Set(s) => format!("set({:?}={})", s.key(), s.expected()), COp::Remove(k) => format!("remove({:?})", k), COp::Extend(e) => format!("extend_claims({:?})", e), COp::Build => "build".into() }).collect::<Vec<_>>().join("; ") };
     for (i, op) in ops.iter().enumerate() {
       match op {
         COp::Set(spec) => {
@@ -84,6 +86,20 @@ impl Sub for ClaimsRoundTrip {
           b.remove(k);
           if model.remove(k).is_some() {
             removals += 1;
+          }
+        }
+        COp::Extend(entries) => {
+          let entries: Vec<(String, Value)> = entries.iter().filter(|(k, _)| !k.is_empty()).cloned().collect();
+          if b.extend(&entries) {
+            for (k, v) in entries {
+              if model.insert(k, v.clone()).is_some() {
+                overwrites += 1;
+              }
+              if depth(&v) >= 1 {
+                nested += 1;
+              }
+            }
+            cl.tag("has:extend_claims");
           }
         }
         COp::Build => {
@@ -186,7 +202,21 @@ fn claim(depth: u32) -> BoxedStrategy<ClaimSpec> {
 }
 
 fn case(proto: Proto, max_ops: usize, depth: u32) -> BoxedStrategy<ClaimsCase> {
-  let op = prop_oneof![8 => claim(depth).prop_map(COp::Set), 3 => key().prop_map(COp::Remove), 1 => Just(COp::Build)];
+  // occasionally a deep chain of nested single-member objects / arrays (serde_json's recursion limit is 128)
+  let deep = (1usize..40, any::<bool>(), gen::json_leaf()).prop_map(|(d, arr, leaf)| {
+    let mut v = leaf;
+    for i in 0..d {
+      v = if arr ^ (i % 3 == 0) { Value::Array(vec![v]) } else { serde_json::json!({ "n": v }) };
+    }
+    v
+  });
+  let op = prop_oneof![
+    8 => claim(depth).prop_map(COp::Set),
+    1 => (key(), deep).prop_map(|(k, v)| COp::Set(ClaimSpec::Custom(k, v))),
+    3 => key().prop_map(COp::Remove),
+    1 => vec((key(), gen::json_value(2)), 0..4).prop_map(COp::Extend),
+    1 => Just(COp::Build)
+  ];
   (gen::bytes32(), vec(op, 0..=max_ops), prop_oneof![Just(None), gen::jsonish(8).prop_map(Some)]).prop_map(move |(seed, ops, footer)| ClaimsCase { proto, seed, ops, footer }).boxed()
 }
 
